@@ -151,3 +151,12 @@ CHECKS.update({
                 note=RC_NOTE, design_ref="§4 C44", parts=[rc("arith", "bits"), rc("arith", "all32"), rc("arith", "amalloc")],
                 assumptions=["reference implementations are the mathematical definitions written as loops"]),
 })
+
+MODEL_NOTE = "rapidcheck stateful model test (operation sequences generated and shrunk as one value, 16 independent runs); oracle = std::vector model + lifetime registry (every element object registered on construction, removed on destruction). Second part: the same sequences under ASan+UBSan. Sequential use only (concurrent growth is C33)."
+CHECKS.update({
+    "C32": dict(title="ConcurrentVector behaves like std::vector sequentially", level="exploration",
+                technique="rapidcheck stateful model-based testing against std::vector with a lifetime registry; sequences shrink to minimal op lists; ASan+UBSan variant of the same generator",
+                text="Generated sequences (up to 80 ops quick / 400 thorough) over 31 operation kinds - every constructor form, assign, push/emplace, the grow_by family, grow_to_at_least, insert (value, rvalue, count, range, list), erase (single, range), resize, reserve, pop_back, clear, shrink_to_fit, copy/move construction and assignment, swap, all six comparisons - on two vectors, for five trait combinations (default, the suite's A and B, and two more covering the remaining switch values) and three element types (16-byte and 272-byte lifetime-tracked objects, heap-owning std::string). After every operation: size, contents by index / forward / reverse iteration, front/back/at, returned iterator positions, comparisons equal std::vector's, and the number of live element objects equals the two sizes; no object is constructed over a live one, destroyed twice or touched when dead.",
+                note=MODEL_NOTE, design_ref="§4 C32", parts=[rc("cvec", "model"), rc("cvec", "model", variant="rcasan", quick=30000, thorough=400000)],
+                assumptions=["preconditions as for std::vector (no pop_back on an empty vector, positions within [begin,end])", "grow_to_at_least's returned iterator has no std::vector counterpart and is not compared"]),
+})
